@@ -100,10 +100,19 @@ def judgeExcl (_payload impl : String) : Verdict :=
     | some (.list (.atom "hold" :: .list [.atom "maxinside", k] :: rest)) =>
       -- the hold policy: somebody reached the region, and never two at once
       k.toStr == "1" && !rest.any (fun x => x.toStr == "deadlock" || x.toStr == "panic")
+    | some (.list [.atom "stress", .list [.atom "emits", n], .list [.atom "items", i], .list [.atom "distinct", d], .list [.atom "matched", m]]) =>
+      -- free-running emitters: exactly N items, N distinct identities, the statistic grown by N
+      i.toStr == n.toStr && d.toStr == n.toStr && m.toStr == n.toStr
     | some (.list [.atom "excl", .atom "reached", .list (.atom "after" :: steps)]) =>
       let names := steps.filterMap fun | .atom a => some a | _ => none
       names.length == steps.length && names.getLast? == some "blocked" &&
         names.all (fun a => a != "done" && !a.endsWith ".mid")
+    | some (.list [.atom "excl", .atom "reached", .list (.atom "after" :: steps), .list [.atom "outcome", items, residue]]) =>
+      -- the two halves of one exchange: the other task blocks, and once the parked one is released the
+      -- exchange is reported once and nothing stays behind (blocking after the look-up is too late)
+      let names := steps.filterMap fun | .atom a => some a | _ => none
+      names.length == steps.length && names.getLast? == some "blocked" &&
+        names.all (fun a => a != "done" && !a.endsWith ".mid") && items.toStr == "1" && residue.toStr == "0"
     | _ => false
   { corr := ok, implSpec := ok, modelSpec := true, tags := [], nontrivial := true, cls := "excl",
     model := "(excl reached (after ... blocked))", spec := "the other task blocks while one is inside the locked region" }
